@@ -212,7 +212,9 @@ class Machine:
             p1 = [self.emb.x(m["lo"][d]) for d in range(nd)]
             p2 = [self.emb.x(m["lo"][d] + m["c"][d] * m["n"][d]) for d in range(nd)]
             reg = self.df.Region(p1=p1, p2=p2, dims=list(m["dims"]))
-            self._meshes[key] = self.df.Mesh(region=reg, n=tuple(int(v) for v in m["n"]))
+            from . import lat
+            self._meshes[key] = lat.arrive_in_place(self.df, self.df.Mesh(region=reg, n=tuple(int(v) for v in m["n"])), self.emb,
+                                                    sum(int(v) for v in m["n"]) * 5 + len(m["dims"]))
         return self._meshes[key]
 
     def build(self, reg):
